@@ -141,6 +141,11 @@ def run(ctx):
     ctx.assumptions = ["Rust std str::lines / BufRead::lines behave as modelled (tied by the differential run)"]
     # vm_compute cross-check of extraction on a sub-sample
     xcheck(ctx, cases, mouts, 60 if ctx.tier == "quick" else 400)
+    # ---- the command-line path (process_file_with_cache -> count_lines_from_content -> count_from_bytes): whole files,
+    # also large ones and ones that are not valid UTF-8, through `stats files`, against the model on the lossy text
+    cli_fails = cli_leg(ctx, model, langs)
+    for f in cli_fails[:3]:
+        ctx.violation({"kind": "property-oracle", **f})
     # ---- verdicts
     for (c, d, f) in fails[:5]:
         ctx.violation({"kind": "property-oracle", "what": f, "syntax": c["sy"].wire(), "mode": c["mode"],
@@ -158,6 +163,60 @@ def run(ctx):
             ctx.violation({"kind": "proof-broken", "details": ctx.proof_broken}, no_input=True)
         elif errs:
             ctx.violation({"kind": "harness-died", "details": errs[:2]}, no_input=False)
+
+
+def cli_leg(ctx, model, langs):
+    import json as _json
+    rng = ctx.rng
+    exe = cargo_build(["sgcli"])["sgcli"]
+    rs = [l for l in langs if "rs" in l.exts][0]
+    py = [l for l in langs if "py" in l.exts][0]
+    def body(prefix, nlines, bad_at=None, eol=b"\n", final=True):
+        ls = []
+        for i in range(nlines):
+            r = i % 7
+            ls.append((prefix.encode() + b" c%d" % i) if r == 3 else (b"" if r == 5 else b"let x%d = %d;" % (i, i)))
+        if bad_at is not None:
+            ls[bad_at] = ls[bad_at] + b" caf\xe9 \xff\xfe"
+        return eol.join(ls) + (eol if final else b"")
+    files = {
+        "small_bad.rs": (rs, body("//", 40, bad_at=7)),
+        "big_ok.rs": (rs, body("//", 90000)),                       # > 1 MiB, valid UTF-8
+        "big_bad.rs": (rs, body("//", 90000, bad_at=80000)),        # > 1 MiB with an invalid byte
+        "big_bad_nofinal.py": (py, body("#", 80000, bad_at=3, final=False)),
+        "crlf_bad.rs": (rs, body("//", 30, bad_at=2, eol=b"\r\n")),
+        "cr_only.rs": (rs, body("//", 12, eol=b"\r", final=False)),
+        "empty.rs": (rs, b""),
+        "nul.rs": (rs, b"let a = 1;\x00\n// c\n\n"),
+    }
+    if ctx.tier != "quick":
+        files["huge_bad.rs"] = (rs, body("//", 400000, bad_at=399999))
+    fails = []
+    with Sandbox() as sb:
+        for name, (_, data) in files.items():
+            sb.write_bytes(name, data) if hasattr(sb, "write_bytes") else open(os.path.join(sb.proj, name), "wb").write(data)
+        rc, out, err = sb.run(exe, ["stats", "files", "--no-config", "--no-sloc-cache", "--no-gitignore", "--format", "json", "--top", "100", "."], env={"RAYON_NUM_THREADS": "2"})
+        try:
+            j = _json.loads(out)
+            rows = j.get("top_files") or j.get("files") or []
+            got = {os.path.basename(r["path"]): (r["total"], r["code"], r["comment"], r["blank"]) for r in rows}
+        except Exception:
+            return [{"what": "stats files on whole files: unparsable output (exit %s): %s %s" % (rc, out[:200], err[:300])}]
+        mlines = ["count\t%s\t%s" % (sy.wire(), enc(data.decode("utf-8", "replace"))) for (sy, data) in files.values()]
+        mo, _, _ = run_lines(model, mlines)
+        for (name, (sy, data)), m in zip(files.items(), mo):
+            md = parse_out(m)
+            want = md["stats"][:4] if md["stats"] else None
+            phys = physical_lines(data.decode("utf-8", "replace"))
+            g = got.get(name)
+            if want is None:
+                continue
+            if g is None:
+                fails.append({"what": "stats files does not list %s (%d bytes, %d physical lines): the file dropped out of the statistics" % (name, len(data), phys), "file": name})
+            elif tuple(g) != tuple(want) or g[0] != phys:
+                fails.append({"what": "stats files reports %s for %s, the model (count on the lossy text) says %s, physical lines %d" % (g, name, want, phys), "file": name})
+    ctx.cov["cli_whole_files"] = len(files)
+    return fails
 
 
 def xcheck(ctx, cases, mouts, k):
